@@ -205,14 +205,12 @@ Proof.
         -- intros _. exact Ea.
     + (* the run has stopped *)
       assert (Hrestart : kw_inv (rev [value]) krl' pl).
-      { simpl. repeat split.
-        - assumption.
-        - discriminate.
-        - intros cs c0 E. change [value] with ([] ++ [value]) in E. apply app_inj_tail in E. destruct E as (_ & <-). reflexivity.
-        - exfalso. assert (any krl' = true) by (apply any_true; eauto). congruence.
-        - exfalso. assert (any krl' = true) by (apply any_true; eauto). congruence.
-        - intros _. exact Ea.
-        - simpl. lia. }
+      { change (rev [value]) with [value]. unfold kw_inv.
+        split; [assumption|]. split; [discriminate|]. split.
+        { intros cs c0 E. change [value] with ([] ++ [value]) in E. apply app_inj_tail in E. destruct E as (_ & <-). reflexivity. }
+        split.
+        { intros j Hj. exfalso. assert (Ht : any krl' = true) by (apply any_true; now exists j). congruence. }
+        split; [intros _; exact Ea|]. simpl. lia. }
       assert (Hgo : match LOOP rest (index + 1) pl [value] krl' with
                     | KErr => False
                     | KFound i combo => exists d1 v r', (done ++ [value]) ++ rest = d1 ++ combo ++ v :: r' /\ i = len (d1 ++ combo) /\
@@ -228,8 +226,87 @@ Proof.
       * rewrite Hi, Hd. reflexivity.
       * now rewrite len_rev.
       * assumption.
-      * apply inv_walk with (krl := krl) (past := past); [repeat split; assumption|].
+      * apply inv_walk with (krl := krl) (past := past); [exact (conj Hlen (conj Hnil (conj Hlast (conj Hw (conj Hshort Hlong)))))|].
         unfold len in Hl4. lia.
+Qed.
+
+Lemma kw_inv_init : kw_inv [] [] (map (fun _ => None) kbs).
+Proof.
+  unfold kw_inv. split; [simpl; lia|]. split; [reflexivity|]. split; [intros cs c0 E; destruct cs; discriminate|].
+  split; [intros j Hj; destruct j; discriminate|]. split; [reflexivity|]. simpl. lia.
+Qed.
+
+Lemma sound_K combo : min_run <= len combo -> INTERESTING combo = Some true -> is_walk combo ->
+  sound (combo, Some (LK (len combo))).
+Proof.
+  intros Hm Hi Hw. split.
+  - simpl. intros ->. rewrite len_nil in Hm. lia.
+  - simpl. split; [reflexivity|]. split; [assumption|]. split; [exact Hw|]. now apply interesting_true.
+Qed.
+
+Lemma tiles_K combo : tiles pm combo [(combo, Some (LK (len combo)))].
+Proof. exists [combo]. split; [simpl; apply app_nil_r|]. constructor; [reflexivity|constructor]. Qed.
+
+Lemma kw_pre (pw d0 combo rest : str) index : pw = d0 ++ combo ++ rest -> index = len (d0 ++ combo) ->
+  (if len combo =? index then [] else [(slice pw 0 (index - len combo), @None label)]) = osec d0.
+Proof.
+  intros -> ->. rewrite len_app. replace (len d0 + len combo - len combo) with (len d0) by lia.
+  rewrite slice_prefix. destruct d0 as [|c d0].
+  - rewrite len_nil. simpl. now rewrite Z.eqb_refl.
+  - rewrite len_cons. pose proof (len_nonneg d0).
+    replace (len combo =? 1 + len d0 + len combo) with false; [reflexivity|]. symmetry. apply Z.eqb_neq. lia.
+Qed.
+
+Theorem kw_ok : forall fuel pw, (length pw <= fuel)%nat -> pw <> [] ->
+  exists sl f, KW fuel pw = Some (sl, f) /\ tiles pm pw sl /\ Forall sound sl /\ f = texts 0 sl.
+Proof.
+  induction fuel as [|fu IH]; intros pw Hf Hne.
+  - destruct pw; [congruence|simpl in Hf; lia].
+  - pose proof (kw_loop_spec pw [] [] [] (map (fun _ => None) kbs) 0 eq_refl (ex_intro _ [] eq_refl) kw_inv_init) as Hs.
+    cbn [detect_keyboard_walk]. simpl app in Hs.
+    destruct (LOOP pw 0 (map (fun _ => None) kbs) [] []) as [|index combo|combo]; [contradiction| |].
+    + destruct Hs as (d0 & value & rest' & Epw & Hidx & Hm & Hint & Hw).
+      rewrite (kw_pre pw d0 combo (value :: rest') index Epw Hidx).
+      assert (Hlt : index <> len pw).
+      { rewrite Epw, Hidx, !len_app, len_cons. pose proof (len_nonneg rest'). lia. }
+      apply Z.eqb_neq in Hlt. rewrite Hlt.
+      assert (Erest : sfrom pw index = value :: rest').
+      { rewrite Epw, Hidx, app_assoc. apply sfrom_app. }
+      rewrite Erest.
+      destruct (IH (value :: rest')) as (secs & found & -> & Ht & Hsd & Hfd); [|discriminate|].
+      { apply (f_equal (@length N)) in Epw. rewrite !app_length in Epw. simpl in Epw.
+        assert (4 <= len combo) by lia. unfold len in *. simpl. lia. }
+      eexists _, _. split; [reflexivity|]. split; [|split].
+      3: { unfold texts. rewrite filter_app, filter_isC_osec. simpl. now rewrite Hfd. }
+      * rewrite Epw. apply tiles_app; [apply tiles_osec; apply pm_unlab|].
+        change (combo ++ value :: rest') with (combo ++ (value :: rest')).
+        change ((combo, Some (LK (len combo))) :: secs) with ([(combo, Some (LK (len combo)))] ++ secs).
+        apply tiles_app; [apply tiles_K|assumption].
+      * apply Forall_app. split.
+        -- destruct d0; [constructor|]. rewrite osec_cons. constructor; [|constructor]. apply sound_unlab. discriminate.
+        -- constructor; [now apply sound_K|assumption].
+    + destruct Hs as (d0 & Epw & Hw).
+      assert (Hwhole : exists sl f, Some ([(pw, @None label)], @nil str) = Some (sl, f) /\ tiles pm pw sl /\ Forall sound sl /\ f = texts 0 sl).
+      { eexists _, _. split; [reflexivity|]. split; [|split; [|reflexivity]].
+        - exists [pw]. split; [simpl; apply app_nil_r|]. constructor; [reflexivity|constructor].
+        - constructor; [|constructor]. now apply sound_unlab. }
+      destruct (min_run <=? len combo) eqn:Em; [|exact Hwhole]. apply Z.leb_le in Em.
+      destruct (INTERESTING combo) as [[|]|] eqn:Eint; [|exact Hwhole|].
+      * assert (Epre : (if len combo =? len pw then [] else [(slice pw 0 (len pw - len combo), @None label)]) = osec d0).
+        { rewrite (kw_pre pw d0 combo [] (len pw)); [reflexivity|now rewrite app_nil_r|now rewrite Epw]. }
+        rewrite Epre. eexists _, _. split; [reflexivity|]. split; [|split].
+        3: { unfold texts. rewrite filter_app, filter_isC_osec. reflexivity. }
+        -- rewrite Epw. apply tiles_app; [apply tiles_osec; apply pm_unlab|apply tiles_K].
+        -- apply Forall_app. split.
+           ++ destruct d0; [constructor|]. rewrite osec_cons. constructor; [|constructor]. apply sound_unlab. discriminate.
+           ++ constructor; [|constructor]. apply sound_K; try assumption. apply Hw. unfold len in Em. lia.
+      * exfalso. revert Eint. apply interesting_total. lia.
+Qed.
+
+Theorem kw_split_ok_proved :
+  kw_split_ok isalpha isdigit lower_c kbs fp_words min_run year_prefixes context_strings.
+Proof.
+  intros pw _ Hne. destruct (kw_ok (length pw) pw (Nat.le_refl _) Hne) as (sl & f & H1 & H2 & H3 & _). eauto.
 Qed.
 
 End Kbd.
